@@ -8,7 +8,7 @@ from ..cfg import cfg_of, no_exc
 from ..model import AnalysisError, EnumMember, is_self_attr, norm, unparse, walk_shallow
 from ..report import Check
 from ..rules import attr_writers, branch_reaches_exit, calls_in_func, last_name, node_has_call
-from .c11 import verdict_propagated
+from .c11 import typed_dynamic_leaf_checked, verdict_propagated
 
 
 def _calls(n) -> List[ast.Call]:
@@ -73,6 +73,7 @@ def run(chk: Check) -> None:
         else:
             ok = len(c.args) == 1 and isinstance(c.args[0], ast.Dict) and [norm(v) for v in c.args[0].values] == [vparam] and [norm(k) for k in c.args[0].keys] == ['port_name']
             chk.ob('DOM-validate-before-store', out, ok, 'the dynamic check sees the emitted value under the emitted name', node=c, kind='validates-the-value')
+    typed_dynamic_leaf_checked(chk, 'DOM-validate-before-store')
     # the value stored is the value given, under the name given
     final = [s for s in stores if isinstance(s.ast, ast.Assign) and norm(s.ast.value) == vparam]
     chk.ob('DOM-validate-before-store', out, len(final) == 1 and norm(final[0].ast.targets[0].slice) == 'port_name', 'the value emitted is what is stored, under the port name', kind='stores-the-value')
